@@ -152,5 +152,40 @@ def oracle(ctx):
                     fail = f'WorkingDirectory {wd} != {want!r}'
         if fail:
             res.oracle_failures.append(dict(op=line, input=dict(unit_dir=unitdir, path=r, key=kind), impl_output=core.dec_line(a)[:500], oracle_expectation=fail))
+    # real files: the unit file, or a directory of its path, is a symbolic link whose target lies elsewhere — resolution is
+    # lexical against the directory in the unit's *own* path (where it was found), whatever the file system looks like
+    import e2e, os, re as _re, shutil
+    for variant in ('file-link-rel', 'file-link-abs', 'dir-link', 'searchdir-link'):
+        for r in rnd.sample([x for x in rels if not x.startswith(('/', '%')) and x.strip('./') != ''], 3):
+            res.oracle_evals += 1
+            base = e2e.fresh_dir()
+            real = os.path.join(base, 'repo', 'quadlets')
+            units = os.path.join(base, 'units')
+            os.makedirs(real)
+            os.makedirs(units)
+            text = f'[Container]\nImage=i\nEnvironmentFile={r}\n'
+            with open(os.path.join(real, 'web.container'), 'w') as f:
+                f.write(text)
+            search, unitdir = units, units
+            if variant == 'file-link-rel':
+                os.symlink('../repo/quadlets/web.container', os.path.join(units, 'web.container'))
+            elif variant == 'file-link-abs':
+                os.symlink(os.path.join(real, 'web.container'), os.path.join(units, 'web.container'))
+            elif variant == 'dir-link':
+                os.symlink(real, os.path.join(units, 'sub'))
+                unitdir = os.path.join(units, 'sub')
+            else:
+                # a search directory that is itself a link is resolved once, before discovery (that is where the units are
+                # then found, and what SourcePath= says)
+                os.symlink(real, os.path.join(base, 'linked'))
+                search, unitdir = os.path.join(base, 'linked'), real
+            rc, so, se = e2e.run_binary(['--dry-run', '--no-kmsg-log', os.path.join(base, 'out')], search, cwd='/')
+            shutil.rmtree(base, ignore_errors=True)
+            m = _re.search(r'--env-file (?:"([^"]*)"|(\S+))', so)
+            got = (m.group(1) or m.group(2)) if m else None
+            want = ref_clean_abs(unitdir + '/' + r)
+            if got != want:
+                res.oracle_failures.append(dict(op='e2e', input=dict(variant=variant, value=r, unit_found_in=unitdir), impl_output=dict(exit=rc, env_file=got, stderr=se[-300:]),
+                                                oracle_expectation=f'EnvironmentFile={r} resolves against the directory the unit was found in: {want}'))
     res.samples.append(dict(kind='oracle-case', dir=cases[0][0], path=cases[0][1], key=cases[0][2]))
     ctx.log(f'oracle: {res.oracle_evals} evaluations, {len(res.oracle_failures)} failures')
